@@ -23,7 +23,7 @@ def run(res, tier, replay):
         res.oblige("C harness builds (coverage)", False, log[-300:]); proof_broken(res, "C04"); return "proof"
     q = tier == "quick"
     base = sweep.repo_cases() + sweep.generated_cases(rng, 3 if q else 25)
-    cases = robust.corpus_cases() + sweep.cycle_cases(rng, 6 if q else 60) + sweep.hostile_cases(rng, 4 if q else 40) + sweep.uninit_cases(rng, 2 if q else 20) + base + sweep.damaged_cases(rng, base, 2 if q else 10)
+    cases = robust.corpus_cases() + sweep.cycle_cases(rng, 6 if q else 60) + sweep.hostile_cases(rng, 4 if q else 40) + sweep.targeted_cases(rng, 6 if q else 40) + sweep.uninit_cases(rng, 2 if q else 20) + base + sweep.damaged_cases(rng, base, 2 if q else 10)
     trs = scenario.run_scenarios(exe, [c.scn.with_prefix("edgecap 4000000000") for c in cases], timeout_each=60)
     nbad = 0; nops = 0; worst = 0.0
     for c, t in zip(cases, trs):
